@@ -74,11 +74,31 @@ theorem absent_eq [DecidableEq V] (W : World V) (o : Opts V) (f : PField V) (dat
   · cases hf : filled o f <;> simp
   · simp
 
+/-- the field's chosen input was dropped by the 'exclude' policy (and the field is not required) -/
+def isExcluded [DecidableEq V] (W : World V) (o : Opts V) (f : PField V) (data : List (Key × V)) : Bool :=
+  match candidates W f data with
+  | [] => false
+  | c :: _ => !noInput W o f c && (W.fp f.attname c).isNone
+              && decide (f.onError.getD o.invalidValues = .exclude) && !required o f
+
+/-- what the shared statements do for a field that was given: the whole contract, except that for a dropped
+value only the errors are handled (the rest is left to the strategy) -/
+def outA [DecidableEq V] (W : World V) (o : Opts V) (data : List (Key × V)) (f : PField V) : FieldOut V :=
+  if isExcluded W o f data then
+    { value := none, errs := (fieldContract W o f data).errs, provided := true, active := false }
+  else fieldContract W o f data
+
+/-- what is left for a dropped value: the field as one that was not given -/
+def outB [DecidableEq V] (W : World V) (o : Opts V) (data : List (Key × V)) (f : PField V) : FieldOut V :=
+  if isExcluded W o f data then
+    { value := (fieldContract W o f data).value, errs := [], provided := false, active := false }
+  else fieldContract W o f data
+
 theorem provide_eq [DecidableEq V] (W : World V) (o : Opts V) (f : PField V) (data : List (Key × V)) (st : St V)
     (c : V) (rest : List V) (hc : candidates W f data = c :: rest) :
-    provide {} W o f c (!o.ignoreAliasConflicts && rest.any (· ≠ c)) st
-      = applyOut f (fieldContract W o f data) st := by
-  unfold provide fieldContract applyOut parseValue getOnError
+    (provide {} W o f c (!o.ignoreAliasConflicts && rest.any (· ≠ c)) st).1 = applyOut f (outA W o data f) st
+    ∧ (provide {} W o f c (!o.ignoreAliasConflicts && rest.any (· ≠ c)) st).2 = isExcluded W o f data := by
+  unfold provide outA isExcluded fieldContract applyOut parseValue getOnError
   rw [hc, isNoInput_eq, isRequired_eq, getDefault_false_eq]
   cases hn : noInput W o f c
   · by_cases hcf : (o.ignoreAliasConflicts = false ∧ ∃ x, x ∈ rest ∧ ¬ x = c) <;>
@@ -90,5 +110,59 @@ theorem provide_eq [DecidableEq V] (W : World V) (o : Opts V) (f : PField V) (da
       · cases hr : required o f <;> cases hf : filled o f <;> simp [hn, hfp, hoe, hr, hf, hcf]
       · simp [hn, hfp, hoe, hcf]
   · cases hf : filled o f <;> simp [hn, hf]
+
+/-- field-first completes a dropped value at once -/
+theorem ffExcluded_eq [DecidableEq V] (W : World V) (o : Opts V) (f : PField V) (data : List (Key × V)) (st : St V)
+    (h : isExcluded W o f data = true) :
+    ffExcluded o f (applyOut f (outA W o data f) st) = applyOut f (fieldContract W o f data) st := by
+  unfold ffExcluded outA
+  rw [h, getDefault_false_eq]
+  unfold isExcluded at h
+  unfold fieldContract applyOut
+  cases hc : candidates W f data with
+  | nil => rw [hc] at h; cases h
+  | cons c rest =>
+    rw [hc] at h
+    simp only [Bool.and_eq_true, Bool.not_eq_true', Option.isNone_iff_eq_none, decide_eq_true_eq] at h
+    obtain ⟨⟨⟨hn, hfp⟩, hoe⟩, hr⟩ := h
+    cases hf : filled o f <;> simp [hn, hfp, hoe, hr, hf]
+
+/-- data-first completes it in the fill loop, with the statements for a field without input -/
+theorem absent_excluded_eq [DecidableEq V] (W : World V) (o : Opts V) (f : PField V) (data : List (Key × V))
+    (st : St V) (h : isExcluded W o f data = true) :
+    absent {} o f st = applyOut f (outB W o data f) st := by
+  unfold absent outB
+  rw [h, isRequired_eq, getDefault_false_eq]
+  unfold isExcluded at h
+  unfold fieldContract applyOut
+  cases hc : candidates W f data with
+  | nil => rw [hc] at h; cases h
+  | cons c rest =>
+    rw [hc] at h
+    simp only [Bool.and_eq_true, Bool.not_eq_true', Option.isNone_iff_eq_none, decide_eq_true_eq] at h
+    obtain ⟨⟨⟨hn, hfp⟩, hoe⟩, hr⟩ := h
+    cases hf : filled o f <;> simp [hn, hfp, hoe, hr, hf]
+
+theorem isExcluded_of_nil [DecidableEq V] (W : World V) (o : Opts V) (f : PField V) (data : List (Key × V))
+    (hc : candidates W f data = []) : isExcluded W o f data = false := by
+  unfold isExcluded; rw [hc]
+
+/-- the contract's `provided`: given, and not dropped -/
+theorem provided_eq [DecidableEq V] (W : World V) (o : Opts V) (f : PField V) (data : List (Key × V)) :
+    (fieldContract W o f data).provided = (given W f data && !isExcluded W o f data) := by
+  unfold fieldContract given isExcluded
+  cases candidates W f data with
+  | nil => simp only; split <;> rfl
+  | cons c rest =>
+    simp only [List.isEmpty_cons, Bool.not_false, Bool.true_and]
+    cases hn : noInput W o f c
+    · cases hfp : W.fp f.attname c with
+      | some r => simp [hn, hfp]
+      | none =>
+        cases hoe : f.onError.getD o.invalidValues
+        · simp [hn, hfp, hoe]
+        · cases hr : required o f <;> simp [hn, hfp, hoe, hr]
+        · simp [hn, hfp, hoe]
+    · simp [hn]
 
 end Utv.C05
